@@ -18,6 +18,7 @@ from sympy import Symbol
 from sympy.logic.boolalg import Boolean
 
 from ..types import TType, TypeErrorException
+from ..types.qfixed import QfixedImp
 from . import Binding, Env, decompose_to_symbols, exceptions, translate_expression
 
 
@@ -94,6 +95,15 @@ def translate_statement(  # noqa: C901
         texp, vexp = translate_expression(stmt.value, env)  # TODO: typecheck
 
         if (
+            isinstance(texp, type)
+            and isinstance(ret_type, type)
+            and issubclass(texp, QfixedImp)
+            and issubclass(ret_type, QfixedImp)
+            and texp != ret_type
+        ):
+            # a fixed point value returned in another layout keeps its binary point
+            texp, vexp = QfixedImp.relayout((texp, vexp), ret_type)
+        elif (
             hasattr(texp, "BIT_SIZE")
             and hasattr(ret_type, "BIT_SIZE")
             and texp.BIT_SIZE < ret_type.BIT_SIZE
